@@ -1,11 +1,11 @@
 /* Frame: construction and the cloning helpers add(...)  (C06 C08 C13). */
 #include "vf_harness.h"
-size_t vf_gk, vf_gj, vf_gc;
+VF_GHOSTS
 
 /* Frame(): fresh empty Points and Analogs */
 void contract_Frame__ctor(struct Frame *self)
 __CPROVER_requires(vf_exc == 0 && __CPROVER_rw_ok(self, sizeof(*self)))
-__CPROVER_assigns(*self, VF_GHOST_ALLOC)
+__CPROVER_assigns(*self VF_GHOST_ALLOC)
 /*@ C06 C08 C13 : Frame_ctor.fresh-empty-points */
 __CPROVER_ensures(__CPROVER_is_fresh(self->_points, sizeof(struct Points)) && self->_points->_points.size == 0)
 /*@ C06 C08 C13 : Frame_ctor.fresh-empty-analogs */
@@ -23,7 +23,7 @@ void h_Frame_ctor(void)
 void contract_Frame__add__Points(struct Frame *self, const struct Points *point3d_frame)
 __CPROVER_requires(vf_exc == 0 && __CPROVER_rw_ok(self, sizeof(*self)) && __CPROVER_r_ok(point3d_frame, sizeof(*point3d_frame)))
 __CPROVER_requires(VF_POINTS_OK(*point3d_frame, vf_gj))
-__CPROVER_assigns(self->_points, VF_GHOST_ALLOC)
+__CPROVER_assigns(self->_points VF_GHOST_ALLOC)
 /*@ C08 C06 C13 : Frame_add_Points.own-copy */
 __CPROVER_ensures(__CPROVER_is_fresh(self->_points, sizeof(struct Points)) && self->_points != point3d_frame)
 /*@ C06 C01 : Frame_add_Points.same-count */
@@ -54,7 +54,7 @@ void h_Frame_add_Points(void)
 void contract_Frame__add__Analogs(struct Frame *self, const struct Analogs *analogs_frame)
 __CPROVER_requires(vf_exc == 0 && __CPROVER_rw_ok(self, sizeof(*self)) && __CPROVER_r_ok(analogs_frame, sizeof(*analogs_frame)))
 __CPROVER_requires(VF_ANALOGS_OK(*analogs_frame, vf_gk, vf_gj))
-__CPROVER_assigns(self->_analogs, VF_GHOST_ALLOC)
+__CPROVER_assigns(self->_analogs VF_GHOST_ALLOC)
 /*@ C08 C06 C13 : Frame_add_Analogs.own-copy */
 __CPROVER_ensures(__CPROVER_is_fresh(self->_analogs, sizeof(struct Analogs)) && self->_analogs != analogs_frame)
 /*@ C06 C01 : Frame_add_Analogs.same-subframe-count */
@@ -97,19 +97,19 @@ void h_Frame_add_Analogs(void)
  * in each, the other half's callee is replaced by its frame-only contract. */
 void contract_frameonly_Frame__add__Points(struct Frame *self, const struct Points *point3d_frame)
 __CPROVER_requires(vf_exc == 0 && __CPROVER_rw_ok(self, sizeof(*self)) && __CPROVER_r_ok(point3d_frame, sizeof(*point3d_frame)))
-__CPROVER_assigns(self->_points, VF_GHOST_ALLOC)
+__CPROVER_assigns(self->_points VF_GHOST_ALLOC)
 __CPROVER_ensures(vf_exc == 0);
 
 void contract_frameonly_Frame__add__Analogs(struct Frame *self, const struct Analogs *analogs_frame)
 __CPROVER_requires(vf_exc == 0 && __CPROVER_rw_ok(self, sizeof(*self)) && __CPROVER_r_ok(analogs_frame, sizeof(*analogs_frame)))
-__CPROVER_assigns(self->_analogs, VF_GHOST_ALLOC)
+__CPROVER_assigns(self->_analogs VF_GHOST_ALLOC)
 __CPROVER_ensures(vf_exc == 0);
 
 void contract_P_Frame__add__Frame(struct Frame *self, const struct Frame *frame)
 __CPROVER_requires(vf_exc == 0 && __CPROVER_rw_ok(self, sizeof(*self)) && __CPROVER_r_ok(frame, sizeof(*frame)))
 __CPROVER_requires(__CPROVER_r_ok(frame->_points, sizeof(struct Points)) && VF_POINTS_OK(*frame->_points, vf_gj) &&
                    __CPROVER_r_ok(frame->_analogs, sizeof(struct Analogs)))
-__CPROVER_assigns(self->_points, self->_analogs, VF_GHOST_ALLOC)
+__CPROVER_assigns(self->_points, self->_analogs VF_GHOST_ALLOC)
 /*@ C08 C06 C13 : Frame_add_Frame.own-points */
 __CPROVER_ensures(__CPROVER_is_fresh(self->_points, sizeof(struct Points)) && self->_points != frame->_points)
 /*@ C06 C01 : Frame_add_Frame.same-point-count */
@@ -139,7 +139,7 @@ void contract_A_Frame__add__Frame(struct Frame *self, const struct Frame *frame)
 __CPROVER_requires(vf_exc == 0 && __CPROVER_rw_ok(self, sizeof(*self)) && __CPROVER_r_ok(frame, sizeof(*frame)))
 __CPROVER_requires(__CPROVER_r_ok(frame->_analogs, sizeof(struct Analogs)) && VF_ANALOGS_OK(*frame->_analogs, vf_gk, vf_gj) &&
                    __CPROVER_r_ok(frame->_points, sizeof(struct Points)))
-__CPROVER_assigns(self->_points, self->_analogs, VF_GHOST_ALLOC)
+__CPROVER_assigns(self->_points, self->_analogs VF_GHOST_ALLOC)
 /*@ C08 C06 C13 : Frame_add_Frame.own-analogs */
 __CPROVER_ensures(__CPROVER_is_fresh(self->_analogs, sizeof(struct Analogs)) && self->_analogs != frame->_analogs)
 /*@ C06 C01 : Frame_add_Frame.same-subframe-count */
